@@ -1293,7 +1293,12 @@ impl ArrayCmp for u8 {
 impl ArrayCmp for Complex {
     fn array_cmp(&self, other: &Self) -> Ordering {
         self.partial_cmp(other).unwrap_or_else(|| {
-            (self.re.is_nan(), self.im.is_nan()).cmp(&(other.re.is_nan(), other.im.is_nan()))
+            // Lexicographic with NaN as the greatest value of each part
+            let cmp = |a: f64, b: f64| {
+                a.partial_cmp(&b)
+                    .unwrap_or_else(|| a.is_nan().cmp(&b.is_nan()))
+            };
+            cmp(self.re, other.re).then_with(|| cmp(self.im, other.im))
         })
     }
 }
